@@ -190,19 +190,20 @@ def r_C18i(root):
     from sa import pyeval
     S = "textx/scoping/__init__.py"; out = []; inst = 0
     fn = find_i(root, S, "ModelRepository.remove_model"); p0 = fn.args.args[1].arg
-    models = {"f1": {".name": "m1", "._tx_filename": "f1"}, "f2": {".name": "m2", "._tx_filename": "f2"}, "anonymous0": {".name": "m3", "._tx_filename": None}}
+    models = {"/f1": {".name": "m1", "._tx_filename": "/f1"}, "/f2": {".name": "m2", "._tx_filename": "/f2"}, "anonymous0": {".name": "m3", "._tx_filename": None}, "/f5": {".name": "m5", "._tx_filename": "/g/grammar.tx"}}
     stranger = {".name": "m4", "._tx_filename": "f4"}
     bad = None
-    for victim_key in ("f1", "f2", "anonymous0", None):
+    for victim_key in ("/f1", "/f2", "anonymous0", "/f5", None):
         store = dict(models); victim = models[victim_key] if victim_key else stranger
-        env = {"self.filename_to_model": store, "self": {".filename_to_model": store}, p0: victim}
+        fns_ = {k_: v_ for k_, v_ in helper_functions(root, S, "ModelRepository.remove_model").items() if k_ != "remove_model"}
+        env = {"__functions__": fns_, "abspath": pyeval.PyFn(lambda p_: p_ if str(p_).startswith("/") else "/cwd/" + str(p_)), "self.filename_to_model": store, "self": {".filename_to_model": store}, p0: victim}
         try: pyeval.run_block(fn.body, env)
         except pyeval.Unsupported as e: raise AnalysisError("ModelRepository.remove_model: outside the evaluated subset: %s" % e)
         except pyeval.Raised as e: bad = bad or (victim_key, "raises " + e.cls); continue
         want = sorted(k for k in models if k != victim_key)
         inst += 1
         if sorted(store) != want and bad is None: bad = (victim_key, "leaves %s, expected %s" % (sorted(store), want))
-    for pr in ("C18", "C15", "C13", "C17"): ob(pr, "C18.i", S, "ModelRepository.remove_model", "remove_model evaluated on a three-entry repository for each entry and for a stranger", bad is None)
+    for pr in ("C18", "C15", "C13", "C17", "C16", "C09", "C28"): ob(pr, "C18.i", S, "ModelRepository.remove_model", "remove_model evaluated on a four-entry repository (one string-loaded model, one whose _tx_filename does not name its entry) for each entry and for a stranger", bad is None)
     if bad:
-        for pr in ("C18", "C15", "C13", "C17"): out.append(Finding(pr, "C18.i", S, "ModelRepository.remove_model", "removing the model stored under %r" % (bad[0],), "remove_model %s: a model of a failed load stays cached (and is reused as 'already constructed' by the next load), or another model is evicted" % bad[1], witness="global repository with an earlier cached model; a load importing lib fails after lib was parsed; the next load imports lib again"))
+        for pr in ("C18", "C15", "C13", "C17", "C16", "C09", "C28"): out.append(Finding(pr, "C18.i", S, "ModelRepository.remove_model", "removing the model stored under %r" % (bad[0],), "remove_model %s: a model of a failed load stays cached (and is reused as 'already constructed' by the next load), or another model is evicted" % bad[1], witness="global repository with an earlier cached model; a load importing lib fails after lib was parsed; the next load imports lib again"))
     return max(inst, 1), out
